@@ -18,6 +18,10 @@ import Dasp.Model.Signal
       l <m> <L> F… <ctx> (signal::lift, hole = the FromIterator)
     reply: one token per observation, then `| pulls | iterator calls | inspect logs` of the base. -/
 namespace Dasp.Driver
+
+/-- `tn` / `un` / `in`: the iterator advanced with ONE `Iterator::nth(m-1)` = `m` calls of `next` of which
+    the client sees the last (these iterators yield `None` without side effects once they have ended) -/
+def lastIf (b : Bool) (l : List String) : List String := if b then l.getLast?.toList else l
 open Dasp.Signal
 
 /-- what the driver needs to know about one frame type -/
@@ -244,32 +248,32 @@ def runOps (nch : Nat) : Nat → St α → List String → List String → Optio
           runOps nch fuel base' rest' ((["["] ++ obs ++ tail).reverse ++ acc)
         | _ => none
       | _, _ => none
-    else if op == "t" then
+    else if op == "t" || op == "tn" then
       match j.toNat?, rest with
       | some n, m :: rest' =>
         match m.toNat? with
         | some m =>
           let (obs, t) := runOpt (TakeSt.next K.ops) m ⟨n, .byRef base⟩
           match t.sig.borrows with
-          | [base'] => runOps nch fuel base' rest' ((["["] ++ obs.map (showOptFrame K) ++ ["]"]).reverse ++ acc)
+          | [base'] => runOps nch fuel base' rest' ((["["] ++ lastIf (op == "tn") (obs.map (showOptFrame K)) ++ ["]"]).reverse ++ acc)
           | _ => none
         | none => none
       | _, _ => none
-    else if op == "u" then
+    else if op == "u" || op == "un" then
       match j.toNat? with
       | some m =>
         let (obs, s) := runOpt (untilNext K.ops) m (.byRef base)
         match s.borrows with
-        | [base'] => runOps nch fuel base' rest ((["["] ++ obs.map (showOptFrame K) ++ ["]"]).reverse ++ acc)
+        | [base'] => runOps nch fuel base' rest ((["["] ++ lastIf (op == "un") (obs.map (showOptFrame K)) ++ ["]"]).reverse ++ acc)
         | _ => none
       | none => none
-    else if op == "i" then
+    else if op == "i" || op == "in" then
       match j.toNat? with
       | some m =>
         let (obs, t) := runOpt (ILSt.nextSample K.ops) m ⟨none, .byRef base⟩
         let shw : Option α → String := fun | none => "none" | some x => K.shw x
         match t.sig.borrows with
-        | [base'] => runOps nch fuel base' rest ((["["] ++ obs.map shw ++ ["]"]).reverse ++ acc)
+        | [base'] => runOps nch fuel base' rest ((["["] ++ lastIf (op == "in") (obs.map shw) ++ ["]"]).reverse ++ acc)
         | _ => none
       | none => none
     else if op == "l" then
